@@ -1,4 +1,5 @@
 """C15 — get_sub_seed: correspondence with coq/Num/Seed.v."""
+import random
 import numpy as np
 from common import *
 
@@ -71,7 +72,28 @@ class C15(PropCheck):
         stream = stream + [int(x) for x in np.random.RandomState(case['seed']).randint(high, size=K + 8, dtype='uint32')][K:]
         return dict(answers=answers, seen=seen, stream=stream)
 
+    def _prepare_seed_schedule(self, case):
+        """the derived seed of (batch generator, row) through elfi.model.tools.prepare_seed must not depend on what was
+        prepared before: rows of several batches (different generators) interleaved, resumed, reversed"""
+        from elfi.model.tools import prepare_seed
+        from elfi.utils import get_sub_seed
+        r = random.Random(case['seed'] * 31 + case['high'])
+        gens = [np.random.RandomState(case['seed'] % 1000 + 11 * k) for k in range(r.randint(1, 3))]
+        sched = [(r.randrange(len(gens)), r.randint(0, 6)) for _ in range(r.randint(2, 10))]
+        for g, row in sched:
+            rs = gens[g]
+            master = rs.get_state()[1][0]
+            _, kw = prepare_seed(random_state=rs, index_in_batch=row)
+            expect = get_sub_seed(master, row)
+            if int(kw['seed']) != int(expect):
+                return 'prepare_seed(generator %d, row %d) gave %d after schedule %r, the uncached derivation gives %d' % (
+                    g, row, int(kw['seed']), sched, int(expect))
+        return None
+
     def py_check(self, case, out):
+        bad = self._prepare_seed_schedule(case)
+        if bad:
+            return [('prepare_seed_history', bad)]
         for (idx, uc), a in zip(case['reqs'], out['answers']):
             if isinstance(a, str):
                 return [('served_or_rejected', 'request idx=%d cache=%s neither served nor rejected: %s' % (idx, uc, a))]
